@@ -94,12 +94,12 @@ prop("C13", [PL.rule_PL6, PL.rule_PL2, PL.rule_PL7, PL.rule_PL8, PL.rule_PT],
      "Retrier::run makes progress or leaves; run only under the bounded exponential back-off built from the configured values (PL2); reload on start and on idle wake-up (PL7); each outcome arm sets the documented status, "
      "predicate tables (PL8). NOT decided: delays, the back-off schedule, 'within the configured delays'.",
      technique="gate facts on channel sends + CFG progress analysis + enum predicate tables by abstract evaluation")
-prop("C14", [PL.rule_PL4, PL.rule_PL5, PN.rule_PN_plugin, PL.rule_PL1, PL.rule_PL2, PL.rule_PL7, IX.rule_IXp, PL.rule_PL8],
+prop("C14", [PL.rule_PL4, PL.rule_PL5, PN.rule_PN_plugin, PL.rule_PL1, PL.rule_PL2, PL.rule_PL7, IX.rule_IXp, PL.rule_PL8, SQ.rule_SQ6],
      STATIC + "Decided: add_update_tower only under receipt.verify(tower_id) == true of the same receipt, strict extension of expiry and slots for a known tower; appointment receipts accepted only if the recovered signer "
      "equals the tower id, otherwise SignatureError -> proof persisted before the status flips -> permanent on the retry path (PL4); sends only to reachable towers, status predicate tables (PL5); no reply class panics (PNp), "
      "is left unrecorded (PL1) or wedges the retry loop (PL2); the in-memory status that gates sending is written only by the listed mutators and never rebuilt from a reply (PL7); no index/slice/positional operation or explicit panic on reply-driven paths is undischarged (IXp). NOT decided: 'any reply' for panics inside reqwest/serde.",
      technique="guard facts at call sites + origin equality of verified/recorded values + classified-unwrap table")
-prop("C15", [WT.rule_HT1, PN.rule_PN2, WT.rule_WT4, IX.rule_IXt, LK.rule_CBS, RT.rule_SB, WT.rule_WT2],
+prop("C15", [WT.rule_HT1, PN.rule_PN2, WT.rule_WT4, IX.rule_IXt, LK.rule_CBS, RT.rule_SB, WT.rule_WT2, LK.rule_LK0, LK.rule_LK1],
      STATIC + "Decided: the tonic codes constructible in the public handlers are all mapped by explicit arms of match_status to the documented error constants, UNEXPECTED_ERROR only on the catch-all; handle_rejection / ApiError "
      "emit only documented codes; four POST routes with their body limits, one shared recover(handle_rejection); empty/size checks precede forwarding (HT1); what the internal service unwraps on request data is validated "
      "by the HTTP handler before the gRPC call (PN2); the HTTP layer, the serde adapters and everything reachable from the handlers contain no undischarged index/slice/byte-offset string operation or explicit panic (IXt); add_appointment cannot be refused after the slots were charged (CBS: the one state change that precedes the last failure point); a refused registration writes nothing to the live record (SB all-or-nothing renewal); each handler refuses exactly the documented field shapes (HT1 field-check table). NOT decided: promptness, 5xx freedom inside warp/tonic, state unchanged after non-200.",
